@@ -12,6 +12,7 @@ PROOF = S.pool_proof('C06', ['C06_forced_flag_always_set', 'C06_forced_shutdown_
 def run(ctx):
     from checks import realkill
     extra = realkill.forced(ctx)
+    extra.update(realkill.churn(ctx))
     return S.sim_check(ctx, FAMILIES, FAMILIES, PER_FAMILY, S.SIM_ASSUME, proof=PROOF, extra_cov=extra)
 
 
